@@ -20,6 +20,11 @@ func (s *Store) maxSizeEnforcer(maxSize int64) {
 			}
 			// Add message to all.
 			m := md.msg
+			if m.removed {
+				// Already deleted by another client, nothing to account for.
+				close(md.done)
+				continue
+			}
 			el := all.PushBack(m)
 			m.el = el
 			curSize += int64(m.Size())
@@ -39,8 +44,10 @@ func (s *Store) maxSizeEnforcer(maxSize int64) {
 			}
 			// Remove message from all.
 			m := md.msg
-			el := all.Remove(m.el)
-			if el != nil {
+			if m.el == nil {
+				// Not registered yet, its pending registration must be skipped.
+				m.removed = true
+			} else if el := all.Remove(m.el); el != nil {
 				curSize -= int64(m.Size())
 			}
 			close(md.done)
